@@ -594,6 +594,18 @@ func chkNoTZCompare(st *stats, z pzone, a, b string) {
 			in["options"] = []string{"WithSilent"}
 			fail("c17.notz-compare", "NONE", in, "the same error under WithSilent", rs.desc)
 		default:
+			// the same comparison inside a filter: the error is not absorbed by the predicate
+			ft := "$[0] ? (@.datetime() < $[1].datetime())"
+			for _, silent := range []bool{false, true} {
+				if _, err := query(st, ft, z, []any{a, b}, false, silent); !hardTZ(err) {
+					in["path"] = ft
+					if silent {
+						in["options"] = []string{"WithSilent"}
+					}
+					fail("c17.notz-compare", "NONE", in, "the time-zone-required error also from inside a filter", fmt.Sprint(err))
+					return
+				}
+			}
 			sample("c17.notz-compare", in, errFlags(r.errs[0]))
 		}
 	case timeLike(ka) != timeLike(kb):
